@@ -113,33 +113,42 @@ Fixpoint qd_run (room : N) (l : bytes) : bytes * bytes :=
 (* ((uchar)*end <= 0x1F && *end != '\r' && *end != '\n') || *end == 0x7F *)
 Definition bad_ctl (c : N) : bool := ((c <=? 31) && negb (c =? 13) && negb (c =? 10)) || (c =? 127).
 
-(* pos: bytes from the current position; k = pos - start *)
+(* one iteration of the outer while loop. pos: bytes from the current position; k = pos - start.
+   QDone = the function returns (or the loop condition is false); QNext = next iteration *)
+Inductive qstep := QDone (r : qres) | QNext (pos : bytes) (k : N) (val : bytes).
+
+Definition pqs_iter (pos : bytes) (k len : N) (val : bytes) : qstep :=
+  if negb (hdz pos =? 34) && (k <? len) then
+    (* if ( *pos == CR) { ++pos; if ((pos-start) > len || *pos != LF) fail } *)
+    let '(pos1, k1, failcr) :=
+      if hdz pos =? 13 then (tlz pos, k + 1, (len <? k + 1) || negb (hdz (tlz pos) =? 10))
+      else (pos, k, false) in
+    if failcr then QDone QFail
+    else if hdz pos1 =? 10 then
+      (* ++pos; if ((pos-start) > len || ( *pos != SP && *pos != HT)) fail; val->append(SP); ++pos; continue *)
+      let pos2 := tlz pos1 in
+      let k2 := k1 + 1 in
+      if (len <? k2) || (negb (hdz pos2 =? 32) && negb (hdz pos2 =? 9)) then QDone QFail
+      else QNext (tlz pos2) (k2 + 1) (val ++ [32])
+    else
+      let quoted := hdz pos1 =? 92 in
+      let pos3 := if quoted then tlz pos1 else pos1 in
+      let k3 := if quoted then k1 + 1 else k1 in
+      if quoted && ((hdz pos3 =? 0) || (len <? k3)) then QDone QFail
+      else
+        let '(run, endp) := qd_run (len - k3) pos3 in
+        if bad_ctl (hdz endp) then QDone QFail
+        else QNext endp (k3 + lenN run) (val ++ run)
+  else if hdz pos =? 34 then QDone (QOk val) else QDone QFail.
+
 Fixpoint pqs_loop (fuel : nat) (pos : bytes) (k len : N) (val : bytes) : qres :=
   match fuel with
   | O => QFuel
   | S f =>
-    if negb (hdz pos =? 34) && (k <? len) then
-      (* if ( *pos == CR) { ++pos; if ((pos-start) > len || *pos != LF) fail } *)
-      let '(pos1, k1, failcr) :=
-        if hdz pos =? 13 then (tlz pos, k + 1, (len <? k + 1) || negb (hdz (tlz pos) =? 10))
-        else (pos, k, false) in
-      if failcr then QFail
-      else if hdz pos1 =? 10 then
-        (* ++pos; if ((pos-start) > len || ( *pos != SP && *pos != HT)) fail; val->append(SP); ++pos; continue *)
-        let pos2 := tlz pos1 in
-        let k2 := k1 + 1 in
-        if (len <? k2) || (negb (hdz pos2 =? 32) && negb (hdz pos2 =? 9)) then QFail
-        else pqs_loop f (tlz pos2) (k2 + 1) len (val ++ [32])
-      else
-        let quoted := hdz pos1 =? 92 in
-        let pos3 := if quoted then tlz pos1 else pos1 in
-        let k3 := if quoted then k1 + 1 else k1 in
-        if quoted && ((hdz pos3 =? 0) || (len <? k3)) then QFail
-        else
-          let '(run, endp) := qd_run (len - k3) pos3 in
-          if bad_ctl (hdz endp) then QFail
-          else pqs_loop f endp (k3 + lenN run) len (val ++ run)
-    else if hdz pos =? 34 then QOk val else QFail
+    match pqs_iter pos k len val with
+    | QDone r => r
+    | QNext pos' k' val' => pqs_loop f pos' k' len val'
+    end
   end.
 
 Definition parse_quoted_string (start : bytes) (len : N) : qres :=
